@@ -103,6 +103,7 @@ NORMALISE = [
 ]
 # functions whose body legitimately differs between configurations (tracing only); one row per function
 DIFF_EXEMPT = {
+    'unifex::_ch::continuation_handle<>::continuation_handle': 'writes vtable_, a member that only exists when UNIFEX_ENABLE_CONTINUATION_VISITATIONS is set (the type-erased visitation table of the handle); there is no such state in the other build and no protocol effect',
     'unifex::inplace_stop_source::~inplace_stop_source': 'debug-only diagnostic listing of dangling callbacks (UNIFEX_LOG_DANGLING_STOP_CALLBACKS); reads only, no protocol effect',
 }
 
